@@ -255,6 +255,7 @@ def check(rep, c, cfg):
             if absorbed:
                 r3.violation("absorb:%s" % b["path"], where(n), "absorbs a refusal (%s) and pest::state does "
                              "not look at the tracker on success" % how)
+    refusefirst(rep, c, sfx, callers_inc)
     r4 = rep.rule("C12.ENTRY" + sfx, 0, "combinators that count a call (evidence only)")
     for p in callers_inc:
         for (q, n) in cg.callers_of(p):
@@ -417,3 +418,73 @@ def width(rep, c, sfx, ctors, adt):
                 r.violation("no-cast:" + b["path"].replace("pest::parser_state::", ""), where(n),
                             "`%s as %s` in %s changes the width of the call limit / counter" % (
                                 hirq.expr_text(n["e"])[:60], n.get("ty"), b["name"]))
+
+
+STD_MUT = ("push", "pop", "truncate", "clear", "insert", "extend", "drain", "set", "replace", "take", "swap",
+           "remove", "append", "retain", "resize", "get_mut", "last_mut", "iter_mut", "as_mut")
+
+
+def refusefirst(rep, c, sfx, callers_inc):
+    """A refused call must be indistinguishable from the call never having been made: the state handed back in the
+    Err is the caller's state.  So a combinator asks the tracker BEFORE it changes anything."""
+    r = rep.rule("C12.REFUSEFIRST" + sfx, 6,
+                 "in every combinator that counts a call, the limit check precedes, on every path, every write to a "
+                 "field of the parser state (assignment, &mut borrow, mutating method): the `?` on the check returns "
+                 "the state as it is, so anything changed before it leaks into the caller (atomicity, look-ahead "
+                 "mode, stack snapshots)")
+    adt = c.adt(PSTATE)
+    if adt is None:
+        r.lost("struct ParserState")
+        return
+    fields = [f["name"] for v in adt["variants"] for f in v["fields"]]
+    fns = []
+    for b in c.bodies:
+        if b.get("impl_self") != PSTATE or b.get("body") is None or b["path"] in callers_inc:
+            continue
+        if any(kind(x) in ("Call", "MethodCall") and callee(x) in callers_inc for x in walk(b["body"])):
+            fns.append(b)
+    if not fns:
+        r.lost("combinators calling the limit check")
+        return
+    for b in fns:
+        muts = {}
+        for f in fields:
+            for (x, how, p) in hirq.mutating_field_accesses(b["body"], f, "ParserState"):
+                if how.startswith("method:"):
+                    path = how[len("method:"):]
+                    h = c.fn(path)
+                    if h is not None:
+                        if not (h.get("inputs") and str(h["inputs"][0]).startswith("&mut")):
+                            continue
+                    elif path.split("::")[-1] not in STD_MUT:
+                        continue
+                muts[id(p)] = (f, how, p)
+        pe = PathEnum(b, inline_closures=False)
+        bad = None
+        try:
+            paths = list(exits(pe.paths()))
+        except hirq.TooManyPaths:
+            r.note("%s: too many paths; order taken from source order" % b["name"])
+            paths = []
+        for (ev, out) in paths:
+            idx = hirq.index_of(ev, lambda e: e.kind == "call" and callee(e.node) in callers_inc)
+            if idx < 0:
+                continue
+            for e in ev[:idx]:
+                if e.kind == "assign" and id(e.node) in muts:
+                    bad = muts[id(e.node)]
+                elif e.kind == "call":
+                    for y in hirq.walk_no_closures(e.node):
+                        if id(y) in muts:
+                            bad = muts[id(y)]
+                if bad:
+                    break
+            if bad:
+                break
+        r.instance(b["name"], where(b["body"]), "%d state writes, %d paths" % (len(muts), len(paths)))
+        if bad:
+            r.violation(b["name"] + ":" + bad[0], where(bad[2]),
+                        "ParserState::%s changes `%s` (%s) before it asks the call-limit tracker: when the call is "
+                        "refused the early return hands back a state that is not the caller's, and a combinator that "
+                        "absorbs the refusal (optional, repeat, negative look-ahead) carries on with it"
+                        % (b["name"], bad[0], bad[1].split("::")[-1]))
